@@ -11,7 +11,6 @@
 from common import *
 import q, mech
 
-USIZE_MAX = 18446744073709551615
 
 
 def run(ctx):
@@ -31,9 +30,15 @@ def run(ctx):
         crs = crates(ctx, cfg)
         ctx.count("functions_analysed", len(crate.bodies))
         upvars(ctx, crate, tag)
-        guards(ctx, crate, tag)
-        hand_off(ctx, crate, crs, tag)
+        mech.guards(ctx, crate, tag)
+        mech.hand_off(ctx, crate, crs, tag)
         consumers(ctx, crate, tag)
+        # "never asks the provider twice" / "never waits on something that cannot complete"
+        mech.memo_check(ctx, "at-most-once", crate, crs, tag)
+        mech.dedup_guard(ctx, "at-most-once", crate, crs, ENC + "queue_solvable", "clauses_added_for_solvable", tag)
+        mech.dedup_guard(ctx, "at-most-once", crate, crs, ENC + "queue_package", "clauses_added_for_package", tag)
+        mech.cancel_safety(ctx, crate, crs, tag)
+        mech.drain_complete(ctx, "drain-complete", crate, crs, tag)
 
 
 def upvars(ctx, crate, tag):
@@ -52,119 +57,6 @@ def upvars(ctx, crate, tag):
                 ctx.ob("upvars" + tag, b.key, "captures:%s" % u["name"], not bad, b.loc(),
                        "%s captured %s" % (ty[:70], u["by"]))
     ctx.floor("upvars" + tag, "captured variables of queued futures", n, 8)
-
-
-def guard_locals(b):
-    return [i for i, l in enumerate(b.locals) if l["ty"].startswith("std::cell::Ref<") or l["ty"].startswith("std::cell::RefMut<")]
-
-
-def live_blocks(b, local):
-    """Blocks in which `local` may be live: reachable from a definition without passing its drop /
-    StorageDead (normal + resume edges)."""
-    defs = [bb for bb, idx, r in b.defs_of(local)]
-    kills = set()
-    for i, t in b.terms("drop"):
-        if t["p"]["l"] == local and "p" not in t["p"]:
-            kills.add(i)
-    for i, blk in enumerate(b.blocks):
-        for s in blk["stmts"]:
-            if s["k"] == "dead" and s["l"] == local:
-                kills.add(i)
-    # moved out: `_x = move _local` also ends the guard's life in this local
-    out = set()
-    for d in defs:
-        out |= b.reachable_after(d, avoid=kills)
-        t = b.blocks[d]["term"]
-    return out, kills
-
-
-def guards(ctx, crate, tag):
-    cos = [b for b in crate.bodies if b.coroutine]
-    ctx.floor("no-guard-across-await" + tag, "coroutines with suspension points",
-              sum(1 for b in cos if b.yields()), 12)
-    n = 0
-    for b in cos:
-        ys = set(b.yields())
-        if not ys:
-            continue
-        ordinal = {}
-        for l in guard_locals(b):
-            n += 1
-            fld = _guard_field(b, l)
-            ordinal[fld] = ordinal.get(fld, 0) + 1
-            live, kills = live_blocks(b, l)
-            crossing = sorted(live & ys)
-            ctx.ob("no-guard-across-await" + tag, b.key, "guard:%s#%d" % (fld, ordinal[fld]), not crossing,
-                   b.loc(crossing[0]) if crossing else b.loc(),
-                   "RefCell guard dropped before every suspension point" if not crossing else
-                   "RefCell guard %s is live across the .await at %s" % (b.local_ty(l)[:60], b.loc(crossing[0])))
-    ctx.count("guard_locals", n)
-    ctx.floor("no-guard-across-await" + tag, "RefCell guard locals in coroutines", n, 4)
-
-
-def _guard_field(b, l):
-    for bb, idx, r in b.defs_of(l):
-        if idx == "term" and r["args"]:
-            d, _ = q.origin_thru(b, r["args"][0])
-            fs = q.fields_of(d)
-            if fs:
-                return fs[-1][1]
-    return "?"
-
-
-def hand_off(ctx, crate, crs, tag):
-    b = body_by_key(crate, CACHE + "get_or_cache_candidates", coroutine=True)
-    if b is None:
-        ctx.ob("hand-off" + tag, CACHE + "get_or_cache_candidates", "anchor", False, "", "async body not found")
-        return
-    F = "package_name_to_candidates_in_flight"
-    regs = q.calls_on_field(b, "std::collections::HashMap::insert", CACHE_ADT, F)
-    rems = q.calls_on_field(b, "std::collections::HashMap::remove", CACHE_ADT, F)
-    pubs = q.calls_on_field(b, mech.INSERTS, CACHE_ADT, "package_name_to_candidates")
-    nots = b.calls_to("event_listener::Event::notify")
-    ctx.floor("hand-off" + tag, "in-flight registration", len(regs), 1)
-    for ri, rt in regs:
-        for what, sites in (("result-insert", pubs), ("marker-removal", rems), ("notify", nots)):
-            ok = bool(sites) and postdominated_modulo_errors(b, ri, [i for i, _ in sites])
-            ctx.ob("hand-off" + tag, b.key, "after-register:%s" % what, ok, where_call(b, ri),
-                   "%s happens on every completing path after the in-flight registration" % what)
-        # same key for registration, publication and removal
-        rk = mech.key_desc(b, rt["args"][1])
-        for what, sites in (("result-insert", pubs), ("marker-removal", rems)):
-            for i, t in sites:
-                ctx.ob("hand-off" + tag, b.key, "same-key:%s" % what, q.same_origin(rk, mech.key_desc(b, t["args"][1])),
-                       where_call(b, i), "uses the package name that was registered")
-    # no suspension between publishing the result and waking the listeners
-    for pi, _ in pubs:
-        for ni, _ in nots:
-            mid = (q.between(b, [pi], ni) | q.between(b, [ni], pi))
-            ys = [y for y in mid if b.blocks[y]["term"]["k"] == "yield"]
-            ctx.ob("hand-off" + tag, b.key, "no-yield-between-publish-and-notify", not ys, where_call(b, ni),
-                   "listeners are woken in the same poll that published the result")
-    for ni, nt in nots:
-        a = nt["args"][1]
-        ctx.ob("hand-off" + tag, b.key, "notify-all", a.get("k") == "const" and a.get("v") == USIZE_MAX, where_call(b, ni),
-               "notify(usize::MAX) wakes every listener (argument: %s)" % a.get("v"))
-        # the notified event is the one removed from the in-flight map
-        d, chain = q.origin_thru(b, nt["args"][0], transparent=q.TRANSPARENT | {"std::option::Option::expect", "std::option::Option::unwrap"})
-        ctx.ob("hand-off" + tag, b.key, "notify-removed-event", d["k"] == "call" and any(d["bb"] == i for i, _ in rems),
-               where_call(b, ni), "the event notified is the one taken out of the in-flight map")
-    # listener side: awaits listen() of the event found in the map, then reads the result map with the same key
-    lis = b.calls_to("event_listener::Event::listen")
-    ctx.floor("hand-off" + tag, "listener branch", len(lis), 1)
-    lookups = q.calls_on_field(b, mech.LOOKUPS, CACHE_ADT, "package_name_to_candidates")
-    for li, lt in lis:
-        ys = [y for y in b.yields() if y in b.reachable_after(li)]
-        awaited = False
-        for y in ys:
-            d, _ = awaited_origin(b, y)
-            if d is not None and d["k"] == "call" and d["bb"] == li:
-                awaited = True
-                after = [i for i, t in lookups if i in b.reachable([b.blocks[y]["term"]["resume"]])]
-                ctx.ob("hand-off" + tag, b.key, "listener-rereads-result", bool(after), b.loc(y),
-                       "after the event fires the listener reads the result map again")
-        ctx.ob("hand-off" + tag, b.key, "listener-awaits-event", awaited, where_call(b, li),
-               "the listener future is awaited (not dropped)")
 
 
 def consumers(ctx, crate, tag):
